@@ -34,8 +34,9 @@ type qevent struct {
 }
 
 type qobs struct {
-	Len  int `json:"len"`  // queue.Len() after the event
-	Item int `json:"item"` // get: the item handed over, else -1
+	Len  int    `json:"len"`            // queue.Len() after the event
+	Item int    `json:"item"`           // get: the item handed over, else -1
+	Last *int64 `json:"last,omitempty"` // after a When (arrive) or a Forget: the limiter's `last`, virtual ns
 }
 
 // qinput is a replayable queue scenario: the setting and the arrivals / durations; the
@@ -147,26 +148,27 @@ func (tw *twin) due() (kind string, item int, at int64, ok bool) {
 }
 
 type qrun struct {
-	in        qinput
-	delta     int64
-	l         *limiter
-	vlast     int64
-	vnow      int64
-	fc        *clocktesting.FakeClock
-	base      time.Time
-	q         k8swq.TypedRateLimitingInterface[int]
-	tw        *twin
-	events    []qevent
-	obs       []qobs
-	grants    [][3]int64 // item, arrival, grant
-	runs      [][2]int64 // item, start
-	lastD     int64
-	stuck     string
-	mu        sync.Mutex
-	whenCalls int
-	lastItem  int
-	lenFn     func() int // reconciler cases: the queue lives behind the hook
-	adds      [][2]int64 // wrapper cases: item, instant of WorkQueue.Add / of a failed callback
+	in          qinput
+	delta       int64
+	l           *limiter
+	vlast       int64
+	vnow        int64
+	fc          *clocktesting.FakeClock
+	base        time.Time
+	q           k8swq.TypedRateLimitingInterface[int]
+	tw          *twin
+	events      []qevent
+	obs         []qobs
+	grants      [][3]int64 // item, arrival, grant
+	runs        [][2]int64 // item, start
+	lastD       int64
+	stuck       string
+	mu          sync.Mutex
+	whenCalls   int
+	forgetCalls int
+	lastItem    int
+	lenFn       func() int // reconciler cases: the queue lives behind the hook
+	adds        [][2]int64 // wrapper cases: item, instant of WorkQueue.Add / of a failed callback
 }
 
 // When is the limiter handed to client-go: the real limiter seen from the current virtual instant.
@@ -209,7 +211,26 @@ func (r *qrun) release(shutdown func()) {
 	r.fc.Step(2 * time.Second)
 }
 
-func (r *qrun) Forget(int)          {}
+// Forget is the limiter handed to client-go forwarding to the REAL limiter's Forget, seen
+// from the current virtual instant; whatever it does to `last` is kept (snapped to the grid).
+func (r *qrun) Forget(int) {
+	r.mu.Lock()
+	defer r.mu.Unlock()
+	r.forgetCalls++
+	if r.l.forget != nil {
+		if v := r.l.around(r.vlast, r.vnow, r.l.forget); v != r.vlast {
+			r.vlast = snap(v)
+		}
+	}
+}
+
+// lastObs is the limiter's `last` now, for the observation of an arrive / forget event.
+func (r *qrun) lastObs() *int64 {
+	r.mu.Lock()
+	defer r.mu.Unlock()
+	v := r.vlast
+	return &v
+}
 func (r *qrun) NumRequeues(int) int { return 0 }
 
 func snap(x int64) int64 {
@@ -267,6 +288,9 @@ func (r *qrun) record(ev qevent, item int) {
 	n := r.await(0)
 	r.events = append(r.events, ev)
 	r.obs = append(r.obs, qobs{Len: n, Item: item})
+	if ev.Ev == "arrive" || ev.Ev == "forget" {
+		r.obs[len(r.obs)-1].Last = r.lastObs()
+	}
 	if ev.Ev == "get" && item < 0 && r.stuck == "" {
 		r.stuck = fmt.Sprintf("at %s an item was due to be handed over but the real queue was empty", dur(ev.T))
 	}
@@ -314,7 +338,11 @@ func (r *qrun) internal(kind string, item int, at int64, dur int64) {
 		}
 		r.record(qevent{T: at, Ev: "get", D: dur}, got)
 	case "done":
+		// the worker's protocol after a successful callback: Forget, then Done
 		r.setTime(at)
+		r.q.Forget(r.tw.pitem)
+		r.record(qevent{T: at, Ev: "forget", Item: r.tw.pitem}, -1)
+		r.obs[len(r.obs)-1].Len = -1
 		r.q.Done(r.tw.pitem)
 		i := r.tw.pitem
 		r.tw.proc = false
@@ -510,6 +538,10 @@ func genQueue(rng *rand.Rand) qinput {
 
 func qcorpus() []qinput {
 	return []qinput{
+		// reloads that take time with requests arriving while they run (interval 600 ms, reload
+		// 150 ms, requests at 0, 80 ms, 650 ms): the worker calls the limiter's Forget after each
+		// reload; a Forget that moves `last` lets the third reload start 151 ms after the second
+		{Kind: kReload, IntervalNs: 600 * ms, Items: 1, Gaps: []int64{0, 80 * ms, 570 * ms}, Durations: []int64{150 * ms}, Ties: []int{0, 0, 0}},
 		// the two-kinds scenario of Proofs/Queue.v two_kinds_history (interval 2 s, wait 200 ms, callbacks 500 ms)
 		{Kind: kReconcil, Rate: 0.5, WaitNs: 200 * ms, Items: 2, Gaps: []int64{0, 100 * ms, 900 * ms}, Who: []int{0, 1, 1}, Durations: []int64{500 * ms}, Ties: []int{0, 0, 0}},
 		{Kind: kReload, IntervalNs: 400 * ms, Items: 1, Gaps: []int64{0, 40 * ms, 380 * ms, 10 * ms, 500 * ms}, Durations: []int64{30 * ms}, Ties: []int{0, 0, 2, 0, 1}},
@@ -532,10 +564,16 @@ func coqQCase(id int, r *qrun, maxD int64) string {
 			ev = "Done"
 		case "retry":
 			ev = fmt.Sprintf("Retry %s %s", hx.Nat(e.Item), hx.Z(e.D))
+		case "forget":
+			ev = fmt.Sprintf("Forget %s", hx.Nat(e.Item))
 		}
 		evs = append(evs, hx.Tuple(hx.Z(e.T), ev))
 		o := r.obs[k]
-		obs = append(obs, hx.Tuple(hx.Z(int64(o.Len)), hx.Opt(o.Item >= 0, hx.Nat(o.Item))))
+		lst := "None"
+		if o.Last != nil {
+			lst = "(Some " + hx.Z(*o.Last) + ")"
+		}
+		obs = append(obs, hx.Tuple(hx.Z(int64(o.Len)), hx.Opt(o.Item >= 0, hx.Nat(o.Item)), lst))
 	}
 	return fmt.Sprintf("QC {| qid := %s; qreload := %s; qdelta := %s; qwait := %s; qD := %s; qevents := %s; qobs := %s |}",
 		hx.N(id), hx.Bool(r.in.Kind == kReload), hx.Z(r.delta), hx.Z(r.in.WaitNs), hx.Z(maxD), hx.List(evs), hx.List(obs))
